@@ -60,13 +60,13 @@ def run(ctx):
     import matplotlib.pyplot as plt
     ctx.rule = ('cube packages (single- and multi-aperture, cube stored in either spectral order, 2-D and 3-D) fitted at tabulated wavelengths; 1..5 selected fits; '
                 'display mode in {interp, largest, largest+smallest, all}; results passed as object or file (output_convolved). Generators guarantee sensitivity: '
-                'A_V >= 0.5 with |k| >= 0.02 at fitted bands, neighbouring apertures differ by >= 5%, band apertures distinct, so a wrong A_V/scale/aperture moves '
+                '|A_V| >= 0.5 for three of four A_V ranges (positive only / reaching below zero / negative only; the fourth is bounded at exactly 0) with |k| >= 0.02 at fitted bands, neighbouring apertures differ by >= 5%, band apertures distinct, so a wrong A_V/scale/aperture moves '
                 'the curve by >= 2%. a case = one plot() call; non-trivial = >=2 selected fits or multi-aperture')
     ctx.assume('tolerance 1.2e-3 relative ("within the rounding of the physical constants used": plot() uses KPC = 3.086e21 cm where 1 kpc = 3.0857e21 cm, measured offset 2.089e-4; c rounded to 3e10 would be 7e-4)',
                'default display mode beyond the largest aperture clamps to 0.999*a_max by design: the accepted band is [interpolant at 0.999 a_max, value at a_max] widened by 1.2e-3', 'which curve of a fit\'s block belongs to which aperture is not part of the statement: a one-to-one assignment of curves to the shown apertures must exist',
                'stored predictions (model_fluxes) are themselves checked against truth by C04')
     ctx.require_events('plot:call', 'curve-point:checked', 'curve-point:truth-checked')
-    ctx.require_regimes('mode:interp', 'mode:largest', 'mode:largest+smallest', 'mode:all', 'input:object', 'input:file', 'multi-aperture', 'single-aperture',
+    ctx.require_regimes('av:negative-among-best-fits', 'mode:interp', 'mode:largest', 'mode:largest+smallest', 'mode:all', 'input:object', 'input:file', 'multi-aperture', 'single-aperture',
                         'cube:asc', 'cube:desc', 'selected>=2', 'beyond-table', 'filters:unsorted', 'two-sources-share-a-model', 'filters-share-an-aperture', 'filters>=12-distinct-apertures', 'cube:unit-not-mJy', 'filters:other-unit', 'law:not-in-micron')
     n_pk = 5 if ctx.quick else 100
     for ip in range(n_pk):
@@ -139,14 +139,17 @@ def run(ctx):
         filt = [(w * u.micron).to(funit_) for w in wav]
         conv = truth.flux[:, :, bi]
         try:
-            fitter = gen.make_fitter(filt, theta, md, law, (0.5, 12.0), dr, use_memmap=False)
+            # the A_V range of the fit: positive only, reaching below zero (bluer than the models: a negative reported A_V), bounded at
+            # exactly zero, negative only
+            avr = [(0.5, 12.0), (-8.0, 12.0), (0.0, 12.0), (-9.0, -0.5)][ip % 4]
+            fitter = gen.make_fitter(filt, theta, md, law, avr, dr, use_memmap=False)
         except Exception as exc:
             ctx.raised(exc, 'setup:fitter-raised', 'Fitter() raised: %r' % (exc,), dict(multi=multi, theta=theta))
             ctx.rmdir(d)
             continue
         # source planted so that fits have distinct A_V >= 0.5 and (3-D) distinct distances
         m0 = int(rng.integers(n_m))
-        a0 = float(rng.uniform(1.0, 8.0))
+        a0 = float(rng.uniform(*[(1.0, 8.0), (-7.0, -1.0), (-3.0, 3.0), (-8.0, -1.0)][ip % 4]))
         if multi:
             dist = np.asarray(fitter.models.distances.to(u.kpc).value, float)
             logm = fitcheck.grid_logm(conv, truth.apertures, theta, dist)
@@ -159,6 +162,10 @@ def run(ctx):
         err = flux * 0.1
         src = gen.build_source('star', valid, flux, err, 3.0, 4.0)
         info_obj = fitter.fit(src)
+        if np.any(np.asarray(info_obj.av[:5], float) < 0):
+            ctx.regime('av:negative-among-best-fits')
+        if np.any(np.asarray(info_obj.av[:5], float) == 0):
+            ctx.regime('av:exactly-zero-among-best-fits')
         # a second source whose best fits share models with the first: one plot() call then draws the same model twice
         flux2 = 10.0 ** (pred + 0.15 + rng.normal(0, 0.03, nb))
         err2 = flux2 * 0.1
@@ -170,7 +177,7 @@ def run(ctx):
             ctx.regime('two-sources-share-a-model')
         out = os.path.join(d, 'fit.out')
         try:
-            fit(data, filt, theta * u.arcsec, md, out, n_data_min=1, extinction_law=law, av_range=(0.5, 12.0),
+            fit(data, filt, theta * u.arcsec, md, out, n_data_min=1, extinction_law=law, av_range=avr,
                 distance_range=dr * u.kpc, output_format=('A', 0), output_convolved=True)
         except Exception as exc:
             ctx.raised(exc, 'setup:fit-raised', 'fit() raised: %r' % (exc,), dict(multi=multi))
